@@ -70,6 +70,10 @@ def run(chk: Check) -> None:
     _state_agreement(chk, repo, types)
     _falsy(chk, repo, schema)
     _auxdata(chk, repo)
+    from .c02 import _write_paths
+    sub = chk.sub()
+    _write_paths(sub, schema, pf, [m for m in schema.reachable("IR")] + ["Offset"])
+    chk.adopt(sub, None, "R01.1")
     from .c04 import _ctor_copies
     from .c14 import _to_protobuf, _typestate
     from .purity import codec_state
@@ -237,6 +241,7 @@ def _bool_operands(e: ast.AST) -> List[ast.AST]:
 
 
 def _falsy(chk: Check, repo: Repo, schema: Schema) -> None:
+    _, pf = _facts(chk)
     names = _scalar_names(schema)
     chk.extra["scalar_names"] = sorted(names)
     n_ctx = 0
@@ -278,6 +283,13 @@ def _falsy(chk: Check, repo: Repo, schema: Schema) -> None:
                         bad = e2.attr
                 elif isinstance(e, ast.Attribute) and e.attr in names:
                     bad = e.attr
+                if bad is None and isinstance(e, (ast.Name, ast.Attribute)):
+                    t = pf.ptype(e, pf.envs.get(f.qualname, {}), f)
+                    if t is not None and t[0] == "scalar" and t[1] in schema.messages:
+                        fld = schema.messages[t[1]].fields.get(t[2])
+                        if fld is not None and (fld.type in INT_SCALARS or fld.type == "string"
+                                                or fld.type in schema.enums):
+                            bad = "%s.%s" % (t[1], t[2])
                 elif isinstance(e, ast.Name) and e.id in names and e.id in f.param_names():
                     bad = None    # parameters such as 'name' are not persisted scalars here
                 key = "%s:truthiness(%s)" % (f.qualname, bad or "-")
